@@ -167,8 +167,10 @@ namespace detail
 	{
 		GLM_STATIC_ASSERT(std::numeric_limits<genIUType>::is_integer, "'isPowerOfTwo' only accept integer inputs");
 
-		genIUType const Result = glm::abs(Value);
-		return !(Result & (Result - 1));
+		// the magnitude in the unsigned type: abs() of the most negative value is not representable in the signed one
+		typedef typename detail::make_unsigned<genIUType>::type genUType;
+		genUType const Result = Value < static_cast<genIUType>(0) ? static_cast<genUType>(static_cast<genUType>(0) - static_cast<genUType>(Value)) : static_cast<genUType>(Value);
+		return !(Result & static_cast<genUType>(Result - static_cast<genUType>(1)));
 	}
 
 	template<typename genIUType>
